@@ -206,6 +206,16 @@ func (l *loaded) battery(every int, nq, nscan int) {
 	if got := c.Do("trie.marshal"); !strings.HasPrefix(got, "ok ") {
 		l.viol("re-Marshal of a loaded legacy stream", "trie.marshal", "ok <len> <hash>", got)
 	}
+	// the upgrade path: every second battery continues on the instance that results from writing the loaded
+	// index with the CURRENT writer and loading that into a fresh instance; the same answers are demanded.
+	if c.Rng.Intn(2) == 0 {
+		c.Hit("upgrade:marshal+reload")
+		if got := c.Do("trie.reload"); got != "ok" {
+			l.viol("upgrade: a loaded legacy stream written by the current writer must load", "trie.reload", "ok", got)
+			return
+		}
+		l.checkStat()
+	}
 	for i := range l.o.keys {
 		if every <= 1 || i%every == 0 || i == len(l.o.keys)-1 {
 			l.checkIndexed(i)
